@@ -56,8 +56,11 @@ class PiecewiseTreeRegressor(DecisionTreeRegressor):
                 )
 
                 replace = self.criterion
+                # the criterion reads the features as a C-contiguous
+                # matrix of doubles, whatever layout the caller uses
                 self.criterion = LinearRegressorCriterion(
-                    1 if len(y.shape) <= 1 else y.shape[1], X
+                    1 if len(y.shape) <= 1 else y.shape[1],
+                    numpy.ascontiguousarray(X, dtype=numpy.float64),
                 )
             elif self.criterion == "simple":
                 from .piecewise_tree_regression_criterion_fast import (
@@ -156,7 +159,7 @@ class PiecewiseTreeRegressor(DecisionTreeRegressor):
         self.betas_ = numpy.empty((len(self.leaves_index_), X.shape[1] + 1))
         for i, _ in enumerate(self.leaves_index_):
             ind = pred_leaves == i
-            xs = X[ind, :].copy()
+            xs = numpy.ascontiguousarray(X[ind, :], dtype=numpy.float64).copy()
             ys = y[ind].astype(numpy.float64)
             if len(ys.shape) == 1:
                 ys = ys[:, numpy.newaxis]
